@@ -456,3 +456,100 @@ func termSymbols(t string) []string {
 	}
 	return out
 }
+
+// sexpChildren splits a term "(op a b ...)" into op and its top-level arguments; ok is false for atoms.
+func sexpChildren(t string) (op string, args []string, ok bool) {
+	t = strings.TrimSpace(t)
+	if len(t) < 2 || t[0] != '(' || t[len(t)-1] != ')' {
+		return "", nil, false
+	}
+	inner := t[1 : len(t)-1]
+	var parts []string
+	d := 0
+	start := -1
+	inStr, inQuote := false, false
+	flush := func(end int) {
+		if start >= 0 {
+			parts = append(parts, inner[start:end])
+			start = -1
+		}
+	}
+	for i := 0; i < len(inner); i++ {
+		c := inner[i]
+		if inStr {
+			if c == '"' {
+				inStr = false
+			}
+			continue
+		}
+		if inQuote {
+			if c == '|' {
+				inQuote = false
+			}
+			continue
+		}
+		switch c {
+		case '"':
+			if start < 0 {
+				start = i
+			}
+			inStr = true
+		case '|':
+			if start < 0 {
+				start = i
+			}
+			inQuote = true
+		case '(':
+			if d == 0 && start < 0 {
+				start = i
+			}
+			d++
+		case ')':
+			d--
+			if d == 0 {
+				flush(i + 1)
+			}
+		case ' ', '\n', '\t':
+			if d == 0 {
+				flush(i)
+			}
+		default:
+			if start < 0 {
+				start = i
+			}
+		}
+	}
+	flush(len(inner))
+	if len(parts) == 0 {
+		return "", nil, false
+	}
+	return parts[0], parts[1:], true
+}
+
+// splitGoal breaks a goal into independently provable parts: conjunctions, and conjunctions on the
+// right of implications.
+func splitGoal(t string) []string {
+	op, args, ok := sexpChildren(t)
+	if !ok {
+		return []string{t}
+	}
+	switch {
+	case op == "and":
+		var out []string
+		for _, a := range args {
+			out = append(out, splitGoal(a)...)
+		}
+		return out
+	case op == "=>" && len(args) == 2:
+		rs := splitGoal(args[1])
+		if len(rs) == 1 {
+			return []string{t}
+		}
+		var out []string
+		for _, r := range rs {
+			out = append(out, "(=> "+args[0]+" "+r+")")
+		}
+		return out
+	}
+	return []string{t}
+}
